@@ -314,11 +314,7 @@ class ParallelBeamGeometry(Geometry):
         # [0, 1, ..., r-1, r+1] for `normal`, and the output axes are set to
         # [0, 1, ..., r-1, r]. This automatically supports broadcasting
         # along the axes 0, ..., r-1.
-        matrix_axes = list(range(matrix.ndim))
-        normal_axes = list(range(matrix.ndim - 2)) + [matrix_axes[-1]]
-        out_axes = list(range(matrix.ndim - 1))
-        det_to_src = np.einsum(matrix, matrix_axes, normal, normal_axes,
-                               out_axes)
+        det_to_src = np.einsum('...ij,...j->...i', matrix, normal)
         if squeeze_angle and squeeze_dparam:
             det_to_src = det_to_src.squeeze()
 
